@@ -11,24 +11,33 @@ using namespace mc;
 using refisa::Machine; using refisa::Env;
 static Ctx ctx;
 
-// Domain filter: the run never reads (loads or fetches) a word it has not written (image words count as written). Returns steps or 0 if outside the domain.
+// Domain filter ("programs that never read memory they have not written"): the run must not DEPEND on words it has not written.  The reference
+// executes the image three times, with every word outside the image pre-set to 0, A5A5A5A5 and 5A5A5A5A; the pair is in the domain iff all three
+// runs stay in the range both implementations provide, exit, and agree in output, exit value, consumption and step count.  (A compiled program
+// reloads the system-call result slot sp[1] after every call, also after exit/write which never write it: such a dead read does not exclude the pair.)
 static uint64_t inDomain(const std::string &file, const std::string &input, uint64_t cap, std::string &why) {
   auto img = refisa::parseImage(file);
-  static thread_local Machine m; static thread_local std::vector<uint8_t> written; static thread_local std::vector<uint32_t> touched;
-  if (written.empty()) written.assign(refisa::MEM_WORDS, 0);
-  m.undoTo(0); m.logWrites = true; m.logAccess = true; m.alog.clear();
-  for (auto a : touched) written[a] = 0; touched.clear();
-  for (size_t i = 0; i + 3 < img.body.size(); i += 4) { m.store(i / 4, (uint8_t)img.body[i] | ((uint8_t)img.body[i + 1] << 8) | ((uint8_t)img.body[i + 2] << 16) | ((uint32_t)(uint8_t)img.body[i + 3] << 24)); written[i / 4] = 1; touched.push_back(i / 4); }
-  m.alog.clear(); m.pc = m.areg = m.breg = m.oreg = 0;
-  Env env; env.in = input; uint64_t steps = 0;
-  while (!env.exited && steps < cap) {
-    if (m.classify(true) != refisa::DEFINED) { why = "leaves the range both implementations provide"; return 0; }
-    m.step(env); steps++;
-    for (auto &ac : m.alog) { if (ac.kind == 2) { if (!written[ac.addr]) { written[ac.addr] = 1; touched.push_back(ac.addr); } } else if (!written[ac.addr]) { why = "reads word " + std::to_string(ac.addr) + " which it has not written"; return 0; } }
-    m.alog.clear();
+  static thread_local Machine m;
+  std::string out0, files0[8]; uint32_t exit0 = 0; size_t in0 = 0; uint64_t steps0 = 0;
+  for (int pass = 0; pass < 3; pass++) {
+    uint32_t bg = pass == 0 ? 0 : pass == 1 ? 0xA5A5A5A5u : 0x5A5A5A5Au;
+    std::fill(m.mem.begin(), m.mem.end(), bg);
+    m.logWrites = false; m.logAccess = false; m.wlog.clear();
+    m.loadWords(img.body);
+    m.pc = m.areg = m.breg = m.oreg = 0;
+    Env env; env.in = input; uint64_t steps = 0;
+    while (!env.exited && steps < cap) {
+      if (m.classify(true) != refisa::DEFINED) { why = pass ? "depends on words it has not written (leaves the defined range under another background)" : "leaves the range both implementations provide"; return 0; }
+      m.step(env); steps++;
+    }
+    if (!env.exited) { why = pass ? "depends on words it has not written (does not exit under another background)" : "does not exit within the cap"; return 0; }
+    if (pass == 0) { out0 = env.out; exit0 = env.exitValue; in0 = env.inPos; steps0 = steps; for (int n = 0; n < 8; n++) files0[n] = env.files[n]; }
+    else {
+      bool same = env.out == out0 && env.exitValue == exit0 && env.inPos == in0 && steps == steps0; for (int n = 0; n < 8; n++) if (env.files[n] != files0[n]) same = false;
+      if (!same) { why = "reads words it has not written and its behaviour depends on them"; return 0; }
+    }
   }
-  if (!env.exited) { why = "does not exit within the cap"; return 0; }
-  return steps;
+  return steps0;
 }
 static int runProc(const std::vector<std::string> &argv, const std::string &cwd, const std::string &stdinPath, std::string &out, double timeout) {
   std::string op = cwd + "/stdout.txt";
@@ -69,6 +78,8 @@ int main(int argc, char **argv) {
   items.insert(items.begin(), Item{"regs-from-reset", "BR start\nDATA 1000\nstart\nBRZ za\nBR bad\nza\nOPR ADD\nBRZ zb\nBR bad\nzb\nOPR SUB\nBRN bad\nBRZ good\nbad\nLDAC 9\nLDBM 1\nSTAI 2\nLDAC 0\nOPR SVC\ngood\nLDAC 4\nLDBM 1\nSTAI 2\nLDAC 0\nOPR SVC\n", true, {""}});
   size_t shipped = items.size();
   uint64_t want = th ? 120000 : 6000;
+  // the hand-parametrised families (scoping, recursion, strings, names, output streams, large frames, long bodies) completely
+  for (size_t f = 0; f < C.fams.size(); f++) if (C.fams[f].name.rfind("F4-F7", 0) == 0) for (uint64_t k = 0; k < C.fams[f].count; k++) { std::string sh; items.push_back({C.fams[f].name, C.fams[f].make(k, &sh), false, {}}); }
   for (uint64_t i = 0; i < C.total; i += std::max<uint64_t>(1, C.total / want)) { std::string sh, fam; std::string s = C.make(i, &sh, &fam); items.push_back({fam, s, false, {}}); }
   if (!ctx.replayPath.empty()) {
     JV v; if (!jparse(slurp(ctx.replayPath), v)) harness_fail("cannot parse replay");
@@ -107,12 +118,13 @@ int main(int argc, char **argv) {
       for (size_t k = 0; k < inputs.size(); k++) {
         const std::string &input = inputs[k];
         std::string why; uint64_t steps = inDomain(file, input, th ? 400000000ull : 3000000ull, why);
-        if (!steps) { st.add("pairs_outside_domain"); st.add("outside_domain:" + why.substr(0, why.find(" word") == std::string::npos ? 40 : why.find(" word"))); if (why.find("reads") == 0) st.sample(Obj().kv("dropped_pair", why).kv("source", it.src.substr(0, 1500)).str(), 8); continue; }
+        if (!steps) { st.add("pairs_outside_domain"); st.add("outside_domain:" + why.substr(0, why.find(" word") == std::string::npos ? 40 : why.find(" word"))); if (why.find("reads") == 0 && false) st.sample(Obj().kv("dropped_pair", why).kv("source", it.src.substr(0, 1500)).str(), 8); continue; }
         auto viol = [&](const std::string &level, const std::string &kind, const std::string &what) {
           st.violation(level + ":" + kind, i, Obj().kv("family", it.family).kv("tool", it.isAsm ? "hexasm" : "xcmp").kv("source", it.src.substr(0, 6000)).kv("input_hex", hexs(input.substr(0, 64))).kv("what", what).str());
         };
         auto hs = R.run(input, steps + 1000);
-        auto tb = tbrun::run(R.binPath, input, 0, 0, steps + 1000);
+        auto tb = tbrun::run(R.binPath, input, 0, 0, steps + 1000, 120, dir + "/tb");
+        std::string hfiles[8]; R.collectFiles(hfiles);
         st.add("pairs_in_process"); st.add("rtl_clocks", steps);
         std::string tout(tb.out, std::min<size_t>(tb.outLen, sizeof tb.out));
         if (tb.sig) viol("in-process", "testbench-died", "hextb run ended with " + std::to_string(tb.sig));
@@ -121,6 +133,11 @@ int main(int argc, char **argv) {
         else if (tb.outLen != hs.out.size() || tout != hs.out.substr(0, sizeof tb.out)) viol("in-process", "output", "stdout after the banner: hextb '" + hexs(tout.substr(0, 48)) + "' hexsim '" + hexs(hs.out.substr(0, 48)) + "'");
         else if (tb.status != hs.rv) viol("in-process", "status", "exit value hextb " + std::to_string(tb.status) + " hexsim " + std::to_string(hs.rv));
         else if (tb.consumed != hs.consumed) viol("in-process", "consumption", "input consumed hextb " + std::to_string(tb.consumed) + " hexsim " + std::to_string(hs.consumed));
+        else for (int n = 0; n < 8; n++) {
+          std::string tf(tb.files[n], std::min<size_t>(tb.fileLen[n], sizeof tb.files[n]));
+          if (tb.fileLen[n] != hfiles[n].size() || tf != hfiles[n].substr(0, sizeof tb.files[n])) { viol("in-process", "file-stream", "simout" + std::to_string(n) + ": hextb '" + hexs(tf) + "' hexsim '" + hexs(hfiles[n].substr(0, 64)) + "'"); break; }
+          if (!hfiles[n].empty()) st.add("pairs_with_file_streams");
+        }
         st.outcome(mix(fnv(hs.out), hs.rv));
         if (input.size()) st.add("pairs_with_input");
         // process level on a stride of the pairs
@@ -150,7 +167,7 @@ int main(int argc, char **argv) {
   rep.evaluations = c["pairs_in_process"] + c["pairs_process_level"]; rep.states = c["rtl_clocks"]; rep.transitions = c["rtl_clocks"]; rep.validated = rep.evaluations;
   rep.nontrivial = c["pairs_in_process"];
   rep.rule = "binaries: the shipped X and assembly programs and a stride sample of the C01 corpus compiled by the working tree's xcmp/hexasm; inputs: the defined answers of the read-branching search (depth 2); "
-             "pairs whose reference run reads a word it has not written are dropped; each pair runs on hextb.cpp's own load()/run() (fresh process, Verilated model) and on hexsim::Processor, a stride also on "
+             "pairs whose reference run depends on words it has not written (three backgrounds must agree) are dropped; each pair runs on hextb.cpp's own load()/run() (fresh process, Verilated model) and on hexsim::Processor, a stride also on "
              "the two built executables with a Verilator seed; stdout after the banner, exit status and input consumption must be equal; pairs are distinct by construction";
   rep.bounds.kv("programs", (uint64_t)items.size()).kv("process_level_stride", procEvery);
   rep.assumptions = {"in-process runs start from the all-zero power-on state and process runs use one seed per pair: the power-on axis belongs to C13", "input consumption at process level is observed through programs that echo what they read"};
